@@ -131,11 +131,7 @@ def arithmetic_rule(repo: Repo, rep: Report, rid: str) -> None:
               f"operators {missing} fall back to int and lose the pointer type/stream", ci.module.path)
 
 
-def dereference_rule(repo: Repo, rep: Report, rid: str) -> None:
-    rep.rule(rid, "dereference discipline: the null / stream-less guard raises NullPointerDereference before any stream use; position is saved, "
-                  "the stream seeks to the address, the target is read (char targets as NUL-terminated string), the position is restored on "
-                  "every path and the result cached")
-    fi = repo.func("types/pointer.py", "Pointer.dereference")
+def _dereference_structural(repo: Repo, rep: Report, rid: str, fi) -> None:
     g = CFG(fi.node)
     me = fi.self_name
     S = f"{me}._stream"
@@ -197,6 +193,26 @@ def dereference_rule(repo: Repo, rep: Report, rid: str) -> None:
         all(g.must_pass(g.entry.id, r.id, {gate[0].id}) for r in reads) and all(g.must_pass(r.id, g.exit.id, {cache[0].id}) for r in reads)
     rep.check(ok, rid, f"{fi.key}:cache", "read once (guarded by _value is None), cached after the read, cached value returned",
               "dereference is not stable on repeated access: the read is not gated by the cache or its result is not cached/returned", fi.loc())
+
+
+def dereference_rule(repo: Repo, rep: Report, rid: str) -> None:
+    rep.rule(rid, "dereference discipline: the null / stream-less guard raises NullPointerDereference before any stream use; position is saved, "
+                  "the stream seeks to the address, the target is read (char targets as NUL-terminated string), the position is restored on "
+                  "every path and the result cached")
+    fi = repo.func("types/pointer.py", "Pointer.dereference")
+    from ..folds import fold_dereference
+
+    fold = fold_dereference(repo)
+    if fold is not None:
+        for label in ("struct target", "char target", "void target", "null pointer", "no stream", "stream already at the address", "target value 0 (falsy)",
+                      "empty string target (falsy)"):
+            bad = [b for b in fold["bad"] if b[0] == label]
+            rep.check(not bad, rid, f"{fi.key}:fold:{label}", "two consecutive dereferences folded: target read once at the absolute address through the remembered "
+                      "stream, stream position restored, value cached (char targets as NUL-terminated strings; void / null / stream-less pointers never read)",
+                      f"Pointer.dereference, case '{label}': results {bad[0][1] if bad else ''}, target reads {bad[0][2] if bad else ''} leaving the stream at "
+                      f"{bad[0][3] if bad else ''}; expected results {bad[0][4] if bad else ''} and reads {bad[0][5] if bad else ''} leaving it at {bad[0][6] if bad else ''}", fi.loc())
+    else:
+        _dereference_structural(repo, rep, rid, fi)
     wr = repo.func("types/pointer.py", "Pointer._write")
     rep.check(len(wr.body) == 1 and isinstance(wr.body[0], ast.Return) and norm(wr.body[0].value) == f"{wr.self_name}.cs.pointer._write({wr.params[1]}, {wr.params[2]})",
               rid, f"{wr.key}:unchanged", "address written back unchanged", "Pointer._write alters the address before writing", wr.loc())
